@@ -68,6 +68,9 @@ type Prov struct {
 	// result is traced into the listed arguments (builtin append is always
 	// traced into both operands).
 	Through func(*ssa.CallCommon) []int
+	// AppendBaseOnly follows only the first operand of builtin append (the slice
+	// being extended), ignoring the appended material.
+	AppendBaseOnly bool
 }
 
 type provKey struct {
@@ -255,7 +258,10 @@ func (w *walker) extract(x *ssa.Extract, path []string) {
 
 func (w *walker) call(v ssa.Value, cc *ssa.CallCommon, res int, path []string) {
 	if b, ok := cc.Value.(*ssa.Builtin); ok && b.Name() == "append" {
-		for _, a := range cc.Args {
+		for i, a := range cc.Args {
+			if i > 0 && w.pv.AppendBaseOnly {
+				break
+			}
 			w.val(a, path)
 		}
 		return
